@@ -26,6 +26,12 @@ PREDS = {
     'is_b': lambda t: str(t) == 'b' or str(t).startswith('b'),
     'not_a': lambda t: not str(t).startswith('a'),
 }
+# predicates that look at the item's recorded offset (token-backed buffers only): two items with equal text differ
+POS_PREDS = {
+    'pos_ge_2': (lambda t: getattr(t, 'position', -1) >= 2, lambda text, pos: pos >= 2),
+    'b_after_3': (lambda t: str(t).startswith('b') and getattr(t, 'position', -1) > 3, lambda text, pos: text.startswith('b') and pos > 3),
+    'a_odd_pos': (lambda t: str(t) == 'a' and getattr(t, 'position', 0) % 2 == 1, lambda text, pos: text == 'a' and pos % 2 == 1),
+}
 BUF_PREDS = {
     'sw_b': 'b',
     'sw_cb': 'cb',
@@ -33,7 +39,7 @@ BUF_PREDS = {
 }
 
 STR_SOURCES = ['', 'a', 'ab', 'abc', 'abcb']
-TOK_SOURCES = ['', 'a', r'\a{b}', 'a b{c}', '$a$b', 'a%b\nb', r'\\b[a]b']
+TOK_SOURCES = ['', 'a', r'\a{b}', 'a b{c}', '$a$b', 'a%b\nb', r'\\b[a]b', 'a{a}a b{b']
 
 
 def op_templates(deep=False):
@@ -61,6 +67,9 @@ def op_templates(deep=False):
         ops.append(('num_forward_until', p))
     for p in BUF_PREDS:
         ops.append(('forward_until_buf', p))
+    for p in POS_PREDS:
+        ops.append(('forward_until', p))
+        ops.append(('num_forward_until', p))
     return ops
 
 
@@ -183,9 +192,14 @@ def run_sequence(backing, source, ops, flags=None, genuine=False):
             exp = ''.join(t for t, _ in items[pos - len(s):pos]).endswith(s)
             npos = pos
         elif name in ('forward_until', 'num_forward_until'):
-            p = PREDS[op[1]]
+            if op[1] in POS_PREDS:
+                if backing != 'tok':
+                    continue
+                mp = POS_PREDS[op[1]][1]
+            else:
+                mp = lambda text, pos_, f=PREDS[op[1]]: f(text)
             q = pos
-            while q < n and not p(items[q][0]):
+            while q < n and not mp(items[q][0], items[q][1]):
                 q += 1
             if name == 'forward_until':
                 exp = ''.join(t for t, _ in items[pos:q])
@@ -240,9 +254,9 @@ def run_sequence(backing, source, ops, flags=None, genuine=False):
             elif name == 'endswith':
                 got = real.endswith(op[1])
             elif name == 'forward_until':
-                got = real.forward_until(PREDS[op[1]])
+                got = real.forward_until(POS_PREDS[op[1]][0] if op[1] in POS_PREDS else PREDS[op[1]])
             elif name == 'num_forward_until':
-                got = real.num_forward_until(PREDS[op[1]])
+                got = real.num_forward_until(POS_PREDS[op[1]][0] if op[1] in POS_PREDS else PREDS[op[1]])
             elif name == 'forward_until_buf':
                 s = BUF_PREDS[op[1]]
                 got = real.forward_until(lambda b, s=s: b.startswith(s), peek=False)
